@@ -74,6 +74,11 @@ def run(ctx):
                 if k == n - 1 and n >= 3:
                     ver = rng.choice([0xC0, 0xC4, 0xFA])
                 leaves.append(TR.TapLeaf(sc, ver))
+            if n >= 3 and ti % 2 == 1:
+                # the same (leaf version, script) on several leaves of one tree (siblings / different depths, depending on the shape)
+                leaves[n - 1] = TR.TapLeaf(Script(list(leaves[0].tap_script.commands)), leaves[0].tapleaf_version)
+                if n >= 5:
+                    leaves[2] = leaves[0]
             shape = rand_shape(rng, n)
 
             def build(s):
@@ -91,59 +96,66 @@ def run(ctx):
             tree = build(shape)
             root = outcome(tree.hash)
             mroot = outcome(build_m(shape).hash)
-            out = outcome(pk.point.tweaked_key, root[1]) if root[0] == "ok" else ("raise", None)
-            tw = outcome(pk.tweaked_key, root[1]) if root[0] == "ok" else ("raise", None)
-            if root[0] != "ok" or out[0] != "ok" or tw[0] != "ok":
+            d2 = rng.randrange(1, N256)
+            pk2 = PrivateKey(d2)
+            for keyno, (d, pk) in enumerate([(d, pk), (d2, pk2)]):      # the same tree object under two internal keys
+              kid = "t%d" % ti if keyno == 0 else "t%dk2" % ti
+              out = outcome(tree.external_pubkey, pk.point) if root[0] == "ok" else ("raise", None)
+              out2 = outcome(pk.point.tweaked_key, root[1]) if root[0] == "ok" else ("raise", None)
+              tw = outcome(pk.tweaked_key, root[1]) if root[0] == "ok" else ("raise", None)
+              if root[0] != "ok" or out[0] != "ok" or tw[0] != "ok" or out2[0] != "ok":
                 ctx.violation("tree:library-raises", "tree of %d leaves: %s %s %s" % (n, root, out, tw), {"kind": "tree", "n": n})
                 continue
-            deven = N256 - d if pk.point.parity else d
-            px = pk.point.xonly()
-            t = int.from_bytes(hash_prim("tag:TapTweak", px + root[1]), "big")
-            qs = (deven + t) % N256
-            qg = qs * pecc.G
-            hr = [th_row(tag, m) for tag, m in calls]
-            base = {"tree": jt(shape), "root": B(root[1]), "px": B(px), "qg_x": B(qg.xonly()), "qg_parity": qg.parity}
-            c = dict(base)
-            c.update({"id": "t%d" % ti, "kind": "tree", "hr": hr, "mirror_root": B(mroot[1]) if mroot[0] == "ok" else [], "d": le(d), "p_odd": bool(pk.point.parity),
-                      "dq": {"q": le((deven + t) // N256), "r": le(qs)}, "tweaked_secret": le(tw[1].secret), "out_x": B(out[1].xonly()), "out_parity": out[1].parity,
-                      "tweaked_pub_x": B(tw[1].point.xonly())})
-            cases.append(c)
-            ctx.nontriv(("tree", n, pk.point.parity, qg.parity))
-            for k, lf in enumerate(leaves):
-                cb = outcome(tree.control_block, pk.point, lf)
-                if cb[0] != "ok" or cb[1] is None:
-                    ctx.violation("leafcb:control_block-fails", "leaf %d of %d: %s" % (k, n, cb), {"kind": "leafcb", "n": n, "k": k})
-                    continue
-                raw = cb[1].serialize()
-                parsed = outcome(TR.ControlBlock.parse, raw)
-                reser = outcome(parsed[1].serialize) if parsed[0] == "ok" else ("raise", b"")
-                ext = outcome(lambda: parsed[1].external_pubkey(lf.tap_script)) if parsed[0] == "ok" else ("raise", None)
-                lc = dict(base)
-                lc.update({"id": "t%d.l%d" % (ti, k), "kind": "leafcb", "hr": hr, "lf": {"leaf": True, "ver": lf.tapleaf_version, "script": B(lf.tap_script.raw_serialize())},
-                           "cb": B(raw), "parse_ok": parsed[0] == "ok", "reser": B(reser[1]) if reser[0] == "ok" else [],
-                           "ext_x": B(ext[1].xonly()) if ext[0] == "ok" else [], "ext_parity": ext[1].parity if ext[0] == "ok" else -1})
-                cases.append(lc)
-                ctx.nontriv(("leafcb", n, (len(raw) - 33) // 32, lf.tapleaf_version))
-                # alterations of the control block and of the leaf script
-                if k in (0, n - 1) or not q:
-                    poss = list(range(len(raw))) if (not q and len(raw) <= 97) else sorted({0, 1, 16, 32} | set(rng.sample(range(len(raw)), min(6, len(raw)))))
-                    for pos in poss:
-                        alt = raw[:pos] + bytes([raw[pos] ^ (1 << rng.randrange(8))]) + raw[pos + 1:]
-                        r2 = outcome(lambda: TR.ControlBlock.parse(alt).external_pubkey(lf.tap_script))
-                        ok2 = r2[0] == "ok" and r2[1].x is not None
-                        # the parity bit lives in the control block: altering byte 0's low bit changes the claimed parity, which the verifier compares
-                        par2 = (alt[0] & 1)
-                        cases.append({"id": "t%d.l%d.a%d" % (ti, k, pos), "kind": "altered", "what": "control-block", "res": "ok" if ok2 else "raise",
-                                      "alt_x": B(r2[1].xonly()) if ok2 else [], "alt_parity": (r2[1].parity if (ok2 and par2 == r2[1].parity) else -2) if ok2 else -1,
-                                      "qg_x": B(qg.xonly()), "qg_parity": qg.parity})
-                        ctx.nontriv(("altered-cb", "byte0" if pos == 0 else "key" if pos < 33 else "path", "ok" if ok2 else "raise"))
-                    sraw = lf.tap_script.raw_serialize()
-                    for pos in rng.sample(range(len(sraw)), min(3, len(sraw))):
-                        alt = sraw[:pos] + bytes([sraw[pos] ^ 1]) + sraw[pos + 1:]
-                        r2 = outcome(lambda: cb[1].external_pubkey(Script.parse(raw=alt)))
-                        ok2 = r2[0] == "ok" and r2[1].x is not None
-                        cases.append({"id": "t%d.l%d.s%d" % (ti, k, pos), "kind": "altered", "what": "leaf-script", "res": "ok" if ok2 else "raise",
-                                      "alt_x": B(r2[1].xonly()) if ok2 else [], "alt_parity": r2[1].parity if ok2 else -1, "qg_x": B(qg.xonly()), "qg_parity": qg.parity})
+              if out2[1] != out[1]:
+                ctx.violation("tree:external_pubkey-differs-from-tweaked_key", "tree of %d leaves, key %d: tree.external_pubkey(P) != P.tweaked_key(root)" % (n, keyno), {"kind": "tree", "n": n})
+              deven = N256 - d if pk.point.parity else d
+              px = pk.point.xonly()
+              t = int.from_bytes(hash_prim("tag:TapTweak", px + root[1]), "big")
+              qs = (deven + t) % N256
+              qg = qs * pecc.G
+              hr = [th_row(tag, m) for tag, m in calls]
+              base = {"tree": jt(shape), "root": B(root[1]), "px": B(px), "qg_x": B(qg.xonly()), "qg_parity": qg.parity}
+              c = dict(base)
+              c.update({"id": kid, "kind": "tree", "hr": hr, "mirror_root": B(mroot[1]) if mroot[0] == "ok" else [], "d": le(d), "p_odd": bool(pk.point.parity),
+                        "dq": {"q": le((deven + t) // N256), "r": le(qs)}, "tweaked_secret": le(tw[1].secret), "out_x": B(out[1].xonly()), "out_parity": out[1].parity,
+                        "tweaked_pub_x": B(tw[1].point.xonly())})
+              cases.append(c)
+              ctx.nontriv(("tree", n, pk.point.parity, qg.parity))
+              for k, lf in enumerate(leaves):
+                  cb = outcome(tree.control_block, pk.point, lf)
+                  if cb[0] != "ok" or cb[1] is None:
+                      ctx.violation("leafcb:control_block-fails", "leaf %d of %d: %s" % (k, n, cb), {"kind": "leafcb", "n": n, "k": k})
+                      continue
+                  raw = cb[1].serialize()
+                  parsed = outcome(TR.ControlBlock.parse, raw)
+                  reser = outcome(parsed[1].serialize) if parsed[0] == "ok" else ("raise", b"")
+                  ext = outcome(lambda: parsed[1].external_pubkey(lf.tap_script)) if parsed[0] == "ok" else ("raise", None)
+                  lc = dict(base)
+                  lc.update({"id": "%s.l%d" % (kid, k), "kind": "leafcb", "hr": hr, "lf": {"leaf": True, "ver": lf.tapleaf_version, "script": B(lf.tap_script.raw_serialize())},
+                             "cb": B(raw), "parse_ok": parsed[0] == "ok", "reser": B(reser[1]) if reser[0] == "ok" else [],
+                             "ext_x": B(ext[1].xonly()) if ext[0] == "ok" else [], "ext_parity": ext[1].parity if ext[0] == "ok" else -1})
+                  cases.append(lc)
+                  ctx.nontriv(("leafcb", n, (len(raw) - 33) // 32, lf.tapleaf_version))
+                  # alterations of the control block and of the leaf script
+                  if k in (0, n - 1) or not q:
+                      poss = list(range(len(raw))) if (not q and len(raw) <= 97) else sorted({0, 1, 16, 32} | set(rng.sample(range(len(raw)), min(6, len(raw)))))
+                      for pos in poss:
+                          alt = raw[:pos] + bytes([raw[pos] ^ (1 << rng.randrange(8))]) + raw[pos + 1:]
+                          r2 = outcome(lambda: TR.ControlBlock.parse(alt).external_pubkey(lf.tap_script))
+                          ok2 = r2[0] == "ok" and r2[1].x is not None
+                          # the parity bit lives in the control block: altering byte 0's low bit changes the claimed parity, which the verifier compares
+                          par2 = (alt[0] & 1)
+                          cases.append({"id": "%s.l%d.a%d" % (kid, k, pos), "kind": "altered", "what": "control-block", "res": "ok" if ok2 else "raise",
+                                        "alt_x": B(r2[1].xonly()) if ok2 else [], "alt_parity": (r2[1].parity if (ok2 and par2 == r2[1].parity) else -2) if ok2 else -1,
+                                        "qg_x": B(qg.xonly()), "qg_parity": qg.parity})
+                          ctx.nontriv(("altered-cb", "byte0" if pos == 0 else "key" if pos < 33 else "path", "ok" if ok2 else "raise"))
+                      sraw = lf.tap_script.raw_serialize()
+                      for pos in rng.sample(range(len(sraw)), min(3, len(sraw))):
+                          alt = sraw[:pos] + bytes([sraw[pos] ^ 1]) + sraw[pos + 1:]
+                          r2 = outcome(lambda: cb[1].external_pubkey(Script.parse(raw=alt)))
+                          ok2 = r2[0] == "ok" and r2[1].x is not None
+                          cases.append({"id": "%s.l%d.s%d" % (kid, k, pos), "kind": "altered", "what": "leaf-script", "res": "ok" if ok2 else "raise",
+                                        "alt_x": B(r2[1].xonly()) if ok2 else [], "alt_parity": r2[1].parity if ok2 else -1, "qg_x": B(qg.xonly()), "qg_parity": qg.parity})
     finally:
         T2.hash_tapleaf, T2.hash_tapbranch, pecc.hash_taptweak = orig_leaf, orig_branch, orig_tweak
     byid = {c["id"]: c for c in cases}
